@@ -697,14 +697,16 @@ func sortAlphabet(kind int) []interface{} {
 
 func childAlphabet(kind int) []interface{} {
 	switch kind {
+	// the child is compared numerically as a double: neighbours that a 32-bit float cannot tell apart
+	// (2^24 and 2^24+1, 2^40 and 2^40+1, 1e300 and the largest double) are in the alphabets
 	case kInt:
-		return []interface{}{0, 1, -2}
+		return []interface{}{0, -2, 16777216, 16777217}
 	case kLong:
-		return []interface{}{int64(0), int64(1), int64(-2)}
+		return []interface{}{int64(1), int64(-2), int64(1) << 40, int64(1)<<40 + 1}
 	case kFloat:
 		return []interface{}{float32(0), float32(1), float32(-2)}
 	case kDouble:
-		return []interface{}{0.0, 1.0, -2.0}
+		return []interface{}{0.0, -2.0, 1e300, math.MaxFloat64}
 	}
 	return []interface{}{"1", "10", "9"} // text order differs from numeric order
 }
